@@ -82,6 +82,8 @@ class WSPeer(BasePeer):
             return
         if mode == "raw":
             resp = bytes.fromhex(rc["hex"])
+        elif mode == "raw_accept":
+            resp = bytes.fromhex(rc["hex"]).replace(b"$ACCEPT", R.accept_for(self.key or "").encode())
         elif mode == "std":
             extra = [tuple(h) for h in rc.get("extra", ())]
             offered = R.header_one(self.request, "Sec-WebSocket-Protocol") if self.request else None
